@@ -283,6 +283,60 @@ class TwoObjects(Harness):
         return {"outcome": "independent", "violation": viol, "observed": obs[:900]}
 
 
+class TwoObjectsOnTheWire(Harness):
+    """Transport level: two inverter objects used concurrently in the virtual network, every transmission answered in
+    time (symbolic delays and start offsets).  Alone, each request is one transmission; interleaved it must be, too."""
+
+    name = "two-objects-wire"
+
+    def __init__(self, transport):
+        from .c06 import Concurrent
+        self.transport = transport
+        self.inner = Concurrent(transport, True, 2, two_objects=True, pinned={"0": ["answer", "answer"], "1": ["answer", "answer"]})
+        self.inner.pinned_offsets = False
+        self.params = {"transport": transport}
+
+    def _verdict(self, obs, fail):
+        if obs.abort is not None:
+            fail("a caller never completed", obs.abort)
+        for j in range(2):
+            k = [x for x in obs.txlog if x[1] == j]
+            if len(k) != 1:
+                fail("an object transmitted its request more than once although every transmission was answered in time",
+                     f"object {j}: {len(k)} transmissions")
+            t, kind, payload = obs.done[j]
+            if kind != "response":
+                fail("an object's request failed although it was answered in time", kind)
+
+    def symbolic(self, ex):
+        from . import transport as TR
+        G = shimmed()
+        G.modbus._modbus_checksum = G.orig_checksum
+        obs = self.inner._run(G, TR.SymScript([], self.inner.T))
+        self.inner.verdict(obs, lambda c, l, d="": ex.check(c, l, d) if not isinstance(c, bool) else (None if c else ex.fail(l, d)), ex.fail)
+        self._verdict(obs, ex.fail)
+        return "independent"
+
+    def concrete(self, inputs):
+        from . import transport as TR
+        R = real()
+        obs = self.inner._run(R, TR.DictScript(inputs, self.inner.T))
+        viol = []
+
+        class Stop(Exception):
+            pass
+
+        def fail(label, detail=""):
+            viol.append((label, detail))
+            raise Stop()
+        try:
+            self._verdict(obs, fail)
+        except Stop:
+            pass
+        return {"outcome": "independent", "violation": f"two {self.transport} objects on the wire: {viol[0][0]}" if viol else None,
+                "observed": f"script={inputs} tx={obs.txlog} done={ {j: (v[0], v[1]) for j, v in obs.done.items()} } {viol[0][1] if viol else ''}"}
+
+
 SEQS_QUICK = [("read_eco", "eco_charge"), ("eco_charge", "read_eco"), ("write_scalar", "read_scalar"),
               ("write_eco", "read_eco"), ("runtime", "read_sensor"), ("read_eco", "read_eco")]
 
@@ -298,7 +352,9 @@ def tasks(tier, seed):
             for sb in seqs:
                 items.append((pair, sa, sb))
     n = 48 if tier == "quick" else 96
-    return [{"name": f"two-{i}", "items": items[i::n]} for i in range(n) if items[i::n]]
+    ts = [{"name": f"two-{i}", "items": items[i::n]} for i in range(n) if items[i::n]]
+    ts += [{"name": f"wire-{tr}", "wire": tr} for tr in ("tcp", "udp")]
+    return ts
 
 
 def run_task(task):
@@ -307,6 +363,8 @@ def run_task(task):
         G.orig_sensor_fns = (G.sensor.decode_day_of_week, G.sensor.decode_months)
         G.orig_bitmap = G.sensor.decode_bitmap
     out = []
+    if "wire" in task:
+        return {"harnesses": [explore(TwoObjectsOnTheWire(task["wire"]), max_paths=50000, max_seconds=1200, witnesses_per_outcome=1)]}
     for pair, sa, sb in task["items"]:
         out.append(explore(TwoObjects(pair, sa, sb), max_paths=3000, max_seconds=300, witnesses_per_outcome=1,
                            trace=len(out) < 1))
@@ -315,6 +373,8 @@ def run_task(task):
 
 def replay(case):
     p = case["params"]
+    if case["harness"] == "two-objects-wire":
+        return TwoObjectsOnTheWire(p["transport"]).concrete(case["inputs"])
     return TwoObjects(p["pair"], p["seq_a"], p["seq_b"]).concrete(case["inputs"])
 
 
